@@ -107,12 +107,16 @@ CTX: Optional[Ctx] = None
 
 
 def _inp_list(inputs) -> list:
+    # (names that are not strings - a change may key the inputs by None - are recorded as "<repr>": no connection has such a slot)
+    def name(x):
+        return x if isinstance(x, str) else f"<{x!r}>"
+
     out = []
-    for deid, attrs in sorted(inputs.items()):
-        for da, srcs in sorted(attrs.items()):
-            for src, v in sorted(srcs.items()):
-                ssid, _, seid = src.partition(".")
-                out.append({"de": deid, "da": da, "src": ssid, "se": seid, "val": "None" if v is None else str(v)})
+    for deid, attrs in sorted(inputs.items(), key=lambda kv: name(kv[0])):
+        for da, srcs in sorted(attrs.items(), key=lambda kv: name(kv[0])):
+            for src, v in sorted(srcs.items(), key=lambda kv: name(kv[0])):
+                ssid, _, seid = name(src).partition(".")
+                out.append({"de": name(deid), "da": name(da), "src": ssid, "se": seid, "val": "None" if v is None else str(v)})
     return out
 
 
@@ -394,8 +398,10 @@ def build_world(ctx: Ctx, loop, world_kw=None, connect_order=None):
             kw1 = {k: v for k, v in ckw.items() if k in ("time_shifted", "weak")}
             if c["init"]:
                 kw1["initial_data"] = c["init"]
-            world.connect_one(ents[c["src"]][eidx(c["se"])], ents[c["dst"]][eidx(c["de"])], c["sa"], c["da"], **kw1)
+            names = (c["sa"],) if c["sa"] == c["da"] else (c["sa"], c["da"])  # (same name on both sides: the destination name is omitted)
+            world.connect_one(ents[c["src"]][eidx(c["se"])], ents[c["dst"]][eidx(c["de"])], *names, **kw1)
             continue
+        pairs = [p_[0] if p_[0] == p_[1] else p_ for p_ in pairs]  # connect(a, b, 'p') for ('p', 'p')
         world.connect(ents[c["src"]][eidx(c["se"])], ents[c["dst"]][eidx(c["de"])], *pairs, **ckw)
     for c in conns:
         if c["sa"]:
